@@ -397,6 +397,7 @@ NUM_ASSUME = ASSUME_COMMON + ["sampling oracle: the exact residue identity is ch
 
 @check("C18")
 def c18(ctx):
+    tlaps(ctx, "NumericProofs.tla")      # unbounded: a carry / borrow / recoding step conserves the represented value; the wrap-around law
     model_check(ctx, "FieldLimbs.tla", "FieldLimbs.cfg")          # carry discipline, exhaustive at 3 limbs x 3 bits
     ok, _ = model_check(ctx, "FieldLimbsNeg.tla", "FieldLimbsNeg.cfg", expect_ok=False)   # control: Neg with bias p (not 2p) underflows
     if ok:
@@ -429,6 +430,7 @@ def c18(ctx):
 
 @check("C19")
 def c19(ctx):
+    tlaps(ctx, "NumericProofs.tla")      # unbounded: the signed radix-16 step (digit range, carries, value conservation), the borrow step
     model_check(ctx, "MCBarrett.tla", "MCBarrett.cfg" if not ctx.thorough else "MCBarrett_all.cfg")   # two conditional subtractions suffice
     # limb-level transcription (truncated q2 product, shift/mask cuts, borrow chains, Mul's q1/r1 split), every x below 2^(2 KB)
     model_check(ctx, "ModmLimbs.tla", "ModmLimbs_t.cfg" if ctx.thorough else "ModmLimbs_q.cfg", timeout=7200)
